@@ -101,9 +101,13 @@ def kron(first, second):
             raise IncompatibleTypes(
                 'Incompatible data types (make sure both are either TT-matrices or TT-tensors).')
 
-        # concatenate the result
+        # concatenate the result (operands of two dtypes: all cores in the promoted dtype)
         cores_new = [c.clone() for c in first.cores] + [c.clone()
                                                         for c in second.cores]
+        dtype = cores_new[0].dtype if len(cores_new) > 0 else None
+        for c in cores_new:
+            dtype = tn.promote_types(dtype, c.dtype)
+        cores_new = [c.to(dtype) for c in cores_new]
         result = torchtt._tt_base.TT(cores_new)
     else:
         raise InvalidArguments('Invalid arguments.')
